@@ -163,7 +163,13 @@ def m_opaque(tag):
 
 
 def m_panic(I, args, callee):
-    msg = describe(I, args[0]) if args else ''
+    msg = ''
+    if args:
+        try:
+            bs = render_args(I, args[0])
+            msg = bytes(b.v if b.conc() else 63 for b in bs).decode('utf-8', 'replace')
+        except Exception:
+            msg = describe(I, args[0])
     I.fail('panic@' + (I.curfn[-1].last if I.curfn else '?'), 'panic reached in %s: %s' % (I.curfn[-1].name if I.curfn else '?', msg[:200]))
 
 
@@ -910,15 +916,175 @@ def m_char_eq_pattern(I, args, callee):
 
 # ------------------------------------------------------------------------------------------------ fmt / errors
 def m_fmt_args(I, args, callee):
-    return Opaque('fmtargs', tuple(args))
+    """fmt::Arguments::new::<N, M>(template, &args) / from_str(s): kept symbolic-free as (template bytes, args)"""
+    if 'from_str' in callee or len(args) == 1:
+        return Opaque('fmtargs', (None, args[0]))
+    tmpl = args[0]
+    tb = conc_bytes(I, as_slice(I, tmpl))
+    arr = I.deref(args[1])
+    return Opaque('fmtargs', (tb, list(arr.fields)))
+
+
+def m_fmt_arg(I, args, callee):
+    m = re.search(r'::new_(\w+)::<(.*)>$', callee)
+    return Opaque('fmtarg', (m.group(1) if m else 'display', m.group(2) if m else '', args[0]))
+
+
+def _digits(n):
+    return [IntV(8, ord(c)) for c in str(n)]
+
+
+def render_value(I, kind, ty, ref, out):
+    """append the Display/Debug rendering of one format argument to out (list of IntV(8))"""
+    v = I.deref(ref) if isinstance(ref, Ref) else ref
+    if isinstance(v, IntV):
+        if ty == 'char' or (v.w == 32 and ty.endswith('char')):
+            if not v.conc():
+                if kind == 'debug':
+                    out.append(IntV(8, 39))
+                out.append(IntV(8, z3.Extract(7, 0, v.v)))   # approximation for symbolic chars: low byte
+                if kind == 'debug':
+                    out.append(IntV(8, 39))
+                return
+            txt = chr(v.v)
+            if kind == 'debug':
+                txt = repr_rust_char(txt)
+            out.extend(IntV(8, b) for b in txt.encode('utf-8'))
+            return
+        if v.conc():
+            out.extend(_digits(v.sval()))
+            return
+        # symbolic integer: fork on the value when it has few candidates, else mark as opaque digits
+        try:
+            val = I.concretize(v, 'formatted integer', limit=16)
+            out.extend(_digits(val))
+        except Unsupported:
+            out.extend(IntV(8, b) for b in b'<int>')
+        return
+    if isinstance(v, BoolV):
+        out.extend(IntV(8, b) for b in (b'true' if v.v is True else b'false' if v.v is False else b'<bool>'))
+        return
+    if isinstance(v, SliceRef) or (isinstance(v, Agg) and v.kind in ('String', 'PathBuf', 'Cow', 'Vec')):
+        sl = as_slice(I, v)
+        es = elems(I, sl)
+        if kind == 'debug':
+            out.append(IntV(8, 34))
+            for e in es:
+                if e.conc() and e.v in (34, 92):
+                    out.append(IntV(8, 92))
+                out.append(e)
+            out.append(IntV(8, 34))
+        else:
+            out.extend(es)
+        return
+    if isinstance(v, Agg) and v.kind == 'FileLoc':
+        # impl Display for FileLoc: "{}:{}", filename.display(), line
+        fn = I.deref(v.fields[0])
+        if isinstance(fn, Agg) and fn.kind == 'Rc':
+            fn = fn.fields[0].v
+        render_value(I, 'display', 'Path', fn, out)
+        out.append(IntV(8, 58))
+        render_value(I, 'display', 'usize', v.fields[1], out)
+        return
+    if isinstance(v, Agg) and v.kind == 'Display':
+        render_value(I, 'display', 'Path', v.fields[0], out)
+        return
+    if isinstance(v, Opaque):
+        if v.tag in ('String', 'anyhow') and v.parts and isinstance(v.parts[0], Agg):
+            render_value(I, kind, 'String', v.parts[0], out)
+            return
+        out.extend(IntV(8, b) for b in ('<%s>' % v.tag).encode())
+        for p_ in v.parts:
+            if isinstance(p_, (bytes, str)):
+                out.extend(IntV(8, b) for b in (p_ if isinstance(p_, bytes) else p_.encode()))
+        return
+    if isinstance(v, Agg):
+        out.extend(IntV(8, b) for b in ('<%s%s>' % (v.kind, '::' + v.variant if v.variant else '')).encode())
+        return
+    out.extend(IntV(8, b) for b in b'<?>')
+
+
+def repr_rust_char(c):
+    esc = {'\n': '\\n', '\r': '\\r', '\t': '\\t', '\0': '\\0', "'": "\\'", '\\': '\\\\'}
+    return "'" + esc.get(c, c) + "'"
+
+
+def render_args(I, fa):
+    """bytes (list of IntV(8)) of a fmt::Arguments value"""
+    out = []
+    if not isinstance(fa, Opaque) or fa.tag != 'fmtargs':
+        raise Unsupported('format of %r' % (fa,))
+    tb, fargs = fa.parts
+    if tb is None:
+        out.extend(elems(I, as_slice(I, fargs)))
+        return out
+    i = 0
+    argi = 0
+    while True:
+        n = tb[i]
+        i += 1
+        if n == 0:
+            break
+        if n < 0x80:
+            out.extend(IntV(8, b) for b in tb[i:i + n])
+            i += n
+        elif n == 0x80:
+            ln = tb[i] | (tb[i + 1] << 8)
+            i += 2
+            out.extend(IntV(8, b) for b in tb[i:i + ln])
+            i += ln
+        else:
+            if n & 1:
+                i += 4
+            if n & 2:
+                i += 2
+            if n & 4:
+                i += 2
+            if n & 8:
+                argi = tb[i] | (tb[i + 1] << 8)
+                i += 2
+            a = fargs[argi]
+            argi += 1
+            if isinstance(a, Opaque) and a.tag == 'fmtarg':
+                render_value(I, a.parts[0], a.parts[1], a.parts[2], out)
+            else:
+                out.extend(IntV(8, b) for b in b'<arg>')
+    return out
 
 
 def m_format(I, args, callee):
-    return Opaque('String', tuple(args))
+    return string_of(render_args(I, args[0]))
+
+
+def m_anyhow_msg(I, args, callee):
+    """anyhow!(..)/bail!(..) constructors: the error carries its rendered message"""
+    a = args[0]
+    if isinstance(a, Opaque) and a.tag == 'fmtargs':
+        return Opaque('anyhow', (string_of(render_args(I, a)),))
+    if isinstance(a, Agg) and a.kind == 'String':
+        return Opaque('anyhow', (a,))
+    if isinstance(a, SliceRef):
+        return Opaque('anyhow', (string_of(list(elems(I, a))),))
+    return Opaque('anyhow', tuple(args))
 
 
 def m_anyhow(I, args, callee):
+    for a in args:
+        if (isinstance(a, Opaque) and a.tag == 'fmtargs') or (isinstance(a, Agg) and a.kind == 'String') or isinstance(a, SliceRef):
+            return m_anyhow_msg(I, [a], callee)
+    for a in args:
+        if isinstance(a, Opaque) and a.tag == 'anyhow':
+            return a
     return Opaque('anyhow', tuple(args))
+
+
+def anyhow_text(I, e):
+    """bytes of an error message when it is concrete, else None"""
+    if isinstance(e, Opaque) and e.parts and isinstance(e.parts[0], Agg) and e.parts[0].kind == 'String':
+        return conc_bytes(I, str_of_string(e.parts[0]))
+    if isinstance(e, Opaque) and e.parts and isinstance(e.parts[0], Opaque):
+        return anyhow_text(I, e.parts[0])
+    return None
 
 
 def m_to_string(I, args, callee):
@@ -1150,14 +1316,19 @@ def m_as_ref_str(I, args, callee):
     return as_slice(I, a)
 
 
+def m_path_display(I, args, callee):
+    return Agg('Display', [as_slice(I, args[0])])
+
+
 MODELS = [
+    (r'^Path::display$|^PathBuf::display$', m_path_display),
     # panics
     (r'^std::rt::panic_fmt$|^core::panicking::panic_fmt$|^std::rt::begin_panic|^panic_fmt$', m_panic),
     (r'^core::panicking::|^panic_cold_explicit$|^std::process::abort$|^panic_cold_display', m_panic_str),
     (r'^unreachable_display|^core::option::unwrap_failed|^core::result::unwrap_failed', m_panic_str),
     # fmt
     (r'^Arguments::<.*>::(new|from_str|new_const|new_v1)', m_fmt_args),
-    (r'^core::fmt::rt::Argument::|^Argument::<.*>::new_', m_opaque('fmtarg')),
+    (r'^core::fmt::rt::Argument::|^Argument::<.*>::new_', m_fmt_arg),
     (r'^core::fmt::rt::(Placeholder|Count|UnsafeArg)', m_opaque('fmtmisc')),
     (r'^format$|^std::fmt::format$|^alloc::fmt::format$|^fmt::format$|format::\{closure', m_format),
     (r'^must_use::', m_identity),
@@ -1200,16 +1371,16 @@ MODELS = [
     (r'^MaybeUninit::<.*>::write$', m_maybeuninit_write),
     (r'^MaybeUninit::<.*>::assume_init$', m_maybeuninit_assume_init),
     # slices / Vec
-    (r'^core::slice::<impl \[.*\]>::get::<usize>$', m_slice_get),
+    (r'^(core::)?slice::<impl \[.*\]>::get::<usize>$', m_slice_get),
     (r'^<(\[.*\]|Vec<.*>|str|String|\[.*; \d+\]) as (std::ops::)?Index(Mut)?<.*>>::index(_mut)?$', m_slice_index),
-    (r'^core::str::<impl str>::is_char_boundary$', m_is_char_boundary),
+    (r'^(core::)?str::<impl str>::is_char_boundary$', m_is_char_boundary),
     (r'^Vec::<.*>::new$', m_vec_new),
     (r'^Vec::<.*>::with_capacity$', m_vec_with_capacity),
     (r'^Vec::<.*>::push$', m_vec_push),
     (r'^Vec::<.*>::pop$', m_vec_pop),
     (r'^(Vec::<.*>|String)::clear$', m_vec_clear),
-    (r'^(Vec::<.*>|String|VecDeque::<.*>)::len$|^core::str::<impl str>::len$|^core::slice::<impl \[.*\]>::len$', m_len),
-    (r'^(Vec::<.*>|String|VecDeque::<.*>)::is_empty$|^core::str::<impl str>::is_empty$|^core::slice::<impl \[.*\]>::is_empty$', m_is_empty),
+    (r'^(Vec::<.*>|String|VecDeque::<.*>)::len$|^(core::)?str::<impl str>::len$|^(core::)?slice::<impl \[.*\]>::len$', m_len),
+    (r'^(Vec::<.*>|String|VecDeque::<.*>)::is_empty$|^(core::)?str::<impl str>::is_empty$|^(core::)?slice::<impl \[.*\]>::is_empty$', m_is_empty),
     (r'^(Vec::<.*>|String)::reserve$', m_unit),
     (r'^Vec::<.*>::extend_from_slice$', m_extend_from_slice),
     (r'^<Vec<.*> as Extend<.*>>::extend::', m_vec_extend),
@@ -1218,9 +1389,9 @@ MODELS = [
     (r'^std::vec::from_elem::', m_from_elem),
     (r'^Vec::<.*>::as_mut_slice$|^Vec::<.*>::as_slice$', m_deref_slice),
     (r'^<(Vec<.*>|String) as Deref(Mut)?>::deref(_mut)?$', m_deref_slice),
-    (r'^core::slice::<impl \[.*\]>::to_vec$', m_to_vec),
-    (r'^core::slice::<impl \[.*\]>::contains$', m_vec_contains),
-    (r'^core::slice::<impl \[.*\]>::iter(_mut)?$', m_slice_iter),
+    (r'^(core::)?slice::<impl \[.*\]>::to_vec$', m_to_vec),
+    (r'^(core::)?slice::<impl \[.*\]>::contains$', m_vec_contains),
+    (r'^(core::)?slice::<impl \[.*\]>::iter(_mut)?$', m_slice_iter),
     (r'^<std::slice::Iter(Mut)?<.*> as Iterator>::next$', m_slice_iter_next),
     (r'^<std::slice::Iter(Mut)?<.*> as IntoIterator>::into_iter$', m_identity),
     (r'^<&(mut )?(\[.*\]|Vec<.*>) as IntoIterator>::into_iter$', m_slice_iter),
@@ -1241,27 +1412,27 @@ MODELS = [
     (r'^<(std::iter::)?(Enumerate|Map|Take|Chain|FlatMap|Split|std::slice::Split)<.*> as IntoIterator>::into_iter$', m_identity),
     (r'^<std::ops::Range<.*> as IntoIterator>::into_iter$', m_range_into_iter),
     (r'^<std::ops::Range<.*> as Iterator>::next$', m_range_next),
-    (r'^core::slice::<impl \[.*\]>::split::', m_slice_split),
-    (r'^core::slice::<impl \[.*\]>::ends_with$', m_ends_with),
-    (r'^core::slice::<impl \[.*\]>::starts_with$', m_starts_with),
-    (r'^core::slice::<impl \[.*\]>::strip_prefix::', m_strip_prefix),
-    (r'^core::str::<impl str>::strip_suffix::<char>$', m_strip_suffix_char),
-    (r'^core::slice::<impl \[.*\]>::copy_within::', m_copy_within),
+    (r'^(core::)?slice::<impl \[.*\]>::split::', m_slice_split),
+    (r'^(core::)?slice::<impl \[.*\]>::ends_with$', m_ends_with),
+    (r'^(core::)?slice::<impl \[.*\]>::starts_with$', m_starts_with),
+    (r'^(core::)?slice::<impl \[.*\]>::strip_prefix::', m_strip_prefix),
+    (r'^(core::)?str::<impl str>::strip_suffix::<char>$', m_strip_suffix_char),
+    (r'^(core::)?slice::<impl \[.*\]>::copy_within::', m_copy_within),
     (r'^array::<impl \[.*; \d+\]>::as_slice$|^core::array::<impl \[.*; \d+\]>::as_slice$', m_array_as_slice),
-    (r'^core::str::<impl str>::as_bytes$|^String::as_bytes$|^String::as_str$|^String::as_mut_str$', m_deref_slice),
+    (r'^(core::)?str::<impl str>::as_bytes$|^String::as_bytes$|^String::as_str$|^String::as_mut_str$', m_deref_slice),
     # String / str
     (r'^String::new$', m_string_new),
     (r'^String::with_capacity$', m_string_new),
     (r'^String::push_str$', m_string_push_str),
     (r'^String::push$', m_string_push),
     (r'^String::truncate$', m_string_truncate),
-    (r'^<String as From<&str>>::from$|^<str as ToOwned>::to_owned$|^core::str::<impl str>::to_owned$|^<String as From<&String>>::from$', m_string_from_str),
+    (r'^<String as From<&str>>::from$|^<str as ToOwned>::to_owned$|^(core::)?str::<impl str>::to_owned$|^<String as From<&String>>::from$', m_string_from_str),
     (r'^<str as ToString>::to_string$|^<String as ToString>::to_string$', m_string_from_str),
     (r'^<\[.*\] as ToOwned>::to_owned$', m_to_vec),
     (r'^<.* as Into<String>>::into$|^<String as From<String>>::from$', m_identity),
     (r'^<&str as Into<String>>::into$', m_string_from_str),
-    (r'^core::str::<impl str>::repeat$', m_str_repeat),
-    (r'^core::str::<impl str>::parse::<usize>$', m_str_parse_usize),
+    (r'^(core::)?str::<impl str>::repeat$', m_str_repeat),
+    (r'^(core::)?str::<impl str>::parse::<usize>$', m_str_parse_usize),
     (r'^<(String|str|&str|Cow<.*>) as AsRef<str>>::as_ref$|^<T as AsRef<str>>::as_ref$', m_as_ref_str),
     (r'^<(String|&str|str) as Borrow<str>>::borrow$|^<K as Borrow<str>>::borrow$', m_borrow_str),
     (r'^<Cow<.*> as Deref>::deref$', m_cow_deref),
